@@ -17,7 +17,7 @@ for d in sorted(glob.glob(os.path.join(V, "seeded", "C*-*"))):
         out = sh("git apply %s" % patch, "/repo")
         if out.strip():
             rows.append((name, "does-not-apply")); continue
-        p = subprocess.run(["./check", pid, "quick"], cwd=V, stdout=subprocess.PIPE, stderr=subprocess.STDOUT)
+        p = subprocess.run(["./check", pid, "quick"], cwd=V, env=dict(os.environ, VERIF_ESCALATE="0"), stdout=subprocess.PIPE, stderr=subprocess.STDOUT)
         o = p.stdout.decode("utf-8", "replace")
         rows.append((name, "detected" if p.returncode == 1 and "VIOLATION property=" + pid in o else "MISSED"))
     finally:
